@@ -361,7 +361,7 @@ FIELD_NAMES = {"r": "which job the call returns", "d": "digest of the returned j
 
 
 def failure_class(reason):
-    return re.sub(r"[0-9a-f]{6,}", "#", re.sub(r"\d+", "#", reason)).split(" (")[0][:40]
+    return re.sub(r"\d+", "#", re.sub(r"\b[0-9a-f]{6,}\b", "#", reason)).split(" (")[0][:40]
 
 
 def minimise(case, pred, budget=40):
@@ -405,15 +405,18 @@ def coq_step(rep):
     for path, content in g.items():
         vlib.write_if_changed(os.path.join(vlib.COQ, path), content)
     os.makedirs(os.path.join(vlib.COQ, "Extract", "out"), exist_ok=True)
-    okx, logx = vlib.coq_make(["Extract/Lanes.vo"])
-    if not okx:
-        raise RuntimeError("lane model / extraction build failed: %s" % vlib.first_coq_error(logx))
-    targets = ["Gen/LaneCfgGen.vo"]
+    # one locked make for everything (-k: the extraction - models only - must build even when a proof is broken)
+    targets = ["Extract/Lanes.vo", "Gen/LaneCfgGen.vo"]
     have_props = os.path.exists(os.path.join(vlib.COQ, PROPS))
     if have_props:
         targets.append(PROPS + "o")
     ok, log = vlib.coq_make(targets)
     broken = None if ok else vlib.first_coq_error(log)
+    xml, xvo = os.path.join(vlib.COQ, "Extract", "out", "Lanes.ml"), os.path.join(vlib.COQ, "Extract", "Lanes.vo")
+    if not ok and (not os.path.exists(xvo) or not os.path.exists(xml) or
+                   os.path.getmtime(xvo) < os.path.getmtime(os.path.join(vlib.COQ, "Model", "LaneMgr.v")) or
+                   any(x in (broken or {}).get("file", "") for x in ("Extract/Lanes", "Model/"))):
+        raise RuntimeError("lane model / extraction build failed: %s" % broken)
     gen_ok = os.path.exists(os.path.join(vlib.COQ, "Gen", "LaneCfgGen.vo")) and (ok or "LaneCfgGen" not in (broken or {}).get("file", "")) and not err
     for n in ("gen_lane_cfgs_wf", "gen_lane_cfgs_pairs"):
         rep.obligation("Gen/LaneCfgGen.v:" + n, gen_ok, "" if gen_ok else (err or "regenerated lane configuration no longer satisfies Model/LaneMgr.v cfg_wf"))
@@ -488,7 +491,7 @@ def lane_whitebox(rep, tier, k=606):
     # ---- verdicts
     seen = set()
     for i, c, tf in tfails:
-        sig = (c["algo"], c["fam"], re.sub(r"\d+", "#", tf[0])[:60])
+        sig = (c["algo"], c["fam"], failure_class(tf[0]))
         if sig in seen or len(seen) >= 4:
             continue
         seen.add(sig)
